@@ -96,6 +96,9 @@ type c15Tx struct {
 	Have  bool    `json:"have"`  // node holds the payload from the start (public in-DAG transactions always do)
 	InDag bool    `json:"indag"` // in the node's DAG from the start; else held by peers only ("pending")
 	Prevs []int   `json:"prevs"` // selectors of earlier transactions (mod index)
+	// Share > 0 on a public transaction: it names the payload hash of the earlier private transaction Share-1 (a "public
+	// alias"); when it is in the DAG from the start its creator supplied the real content (made it public itself), when it
+	// is pending a peer delivers it with whatever bytes the operation says.
 	// Share > 0: this private transaction carries the payload HASH of the earlier private transaction Share-1 (its
 	// creator copied the public hash; it does not know the content). The node never gets the bytes on its behalf from
 	// the start (Have is ignored).
@@ -370,7 +373,7 @@ func c15Gen(t *rapid.T) c15Case {
 	n := rapid.IntRange(1, 9).Draw(t, "ntx")
 	m := rapid.IntRange(1, n).Draw(t, "nindag")
 	pl := c15Pools{n: n}
-	var privIdx, shared []int
+	var privIdx, shared, aliases []int
 	for i := 0; i < n; i++ {
 		tx := c15Tx{InDag: i < m}
 		tx.Priv = rapid.IntRange(0, 9).Draw(t, "priv") < 6
@@ -396,6 +399,12 @@ func c15Gen(t *rapid.T) c15Case {
 			privIdx = append(privIdx, i)
 		} else {
 			tx.Have = true
+			if len(privIdx) > 0 && rapid.IntRange(0, 4).Draw(t, "pubshare") == 0 {
+				tx.Share = privIdx[rapid.IntRange(0, len(privIdx)-1).Draw(t, "share-with")] + 1
+				if rapid.IntRange(0, 4).Draw(t, "alias-pending") > 0 {
+					tx.InDag = false // arrives from a peer
+				}
+			}
 		}
 		if !tx.InDag {
 			tx.Have = false
@@ -417,8 +426,11 @@ func c15Gen(t *rapid.T) c15Case {
 		default:
 			pl.privWanted = append(pl.privWanted, i)
 		}
-		if tx.Share > 0 {
+		if tx.Share > 0 && tx.Priv {
 			shared = append(shared, i)
+		}
+		if tx.Share > 0 && !tx.Priv && !tx.InDag {
+			aliases = append(aliases, i)
 		}
 		c.Txs = append(c.Txs, tx)
 	}
@@ -451,9 +463,35 @@ func c15Gen(t *rapid.T) c15Case {
 	no := rapid.IntRange(1, 12).Draw(t, "nops")
 	for len(c.Ops) < no {
 		k := rapid.SampledFrom([]string{"pq", "pq", "pq", "pq", "pq", "pq", "pq", "lq", "lq", "lq", "rq", "rq", "state", "gossip", "gossip", "set", "set",
-			"payload", "payload", "payload", "payload", "list", "list", "list", "retry", "retry", "gossipout", "diag", "sharedflow", "sharedflow", "sharedflow"}).Draw(t, "op")
+			"payload", "payload", "payload", "payload", "list", "list", "list", "retry", "retry", "gossipout", "diag", "sharedflow", "sharedflow", "sharedflow", "aliasflow", "aliasflow", "aliasflow"}).Draw(t, "op")
 		op := c15Op{K: k, Peer: rapid.IntRange(0, np-1).Draw(t, "oppeer")}
 		switch k {
+		case "aliasflow":
+			// a peer announces a PUBLIC transaction that names the payload hash of a private one, delivers it on request with
+			// bytes of its choosing, and then it (or somebody else) asks for that transaction in every way there is
+			if len(aliases) == 0 {
+				continue
+			}
+			s := aliases[rapid.IntRange(0, len(aliases)-1).Draw(t, "alias-tx")]
+			attach := rapid.SampledFrom([]string{"pub-junk", "pub-junk", "pub-junk", "pub-other", "pub-without", "pub-empty", "priv-with"}).Draw(t, "alias-bytes")
+			c.Ops = append(c.Ops, c15Op{K: "gossip", Peer: op.Peer, Mode: "fit", A: 1, Tx: []int{s}},
+				c15Op{K: "list", Peer: op.Peer, Mode: "lq-exact", Mode2: attach, Tx: []int{s}})
+			nq := rapid.IntRange(1, 3).Draw(t, "nqueries")
+			for q := 0; q < nq; q++ {
+				asker := op.Peer
+				if rapid.IntRange(0, 2).Draw(t, "other-asker") == 0 {
+					asker = rapid.IntRange(0, np-1).Draw(t, "asker")
+				}
+				switch rapid.SampledFrom([]string{"pq", "lq", "rq"}).Draw(t, "how") {
+				case "pq":
+					c.Ops = append(c.Ops, c15Op{K: "pq", Peer: asker, Tx: []int{s}})
+				case "lq":
+					c.Ops = append(c.Ops, c15Op{K: "lq", Peer: asker, Tx: []int{s}})
+				default:
+					c.Ops = append(c.Ops, c15Op{K: "rq", Peer: asker, A: 0, B: 1024})
+				}
+			}
+			continue
 		case "sharedflow":
 			// a peer gets the node to admit a transaction that reuses another one's payload hash (if it is still pending),
 			// somebody else delivers the real payload before or after that, then the peer asks for "its" payload
@@ -534,7 +572,7 @@ func c15Gen(t *rapid.T) c15Case {
 			op.Mode = rapid.SampledFrom([]string{"match", "match", "match", "other", "junk", "empty", "trunc", "ext"}).Draw(t, "data")
 		case "list":
 			op.Mode = rapid.SampledFrom([]string{"lq-exact", "lq-exact", "lq-exact", "lq-sel", "rq-sel", "none"}).Draw(t, "conv")
-			op.Mode2 = rapid.SampledFrom([]string{"priv-with", "priv-with", "priv-without", "priv-wrong", "pub-without"}).Draw(t, "attach")
+			op.Mode2 = rapid.SampledFrom([]string{"priv-with", "priv-with", "priv-without", "priv-wrong", "pub-without", "pub-junk", "pub-other"}).Draw(t, "attach")
 			l := rapid.IntRange(0, 4).Draw(t, "nrefs")
 			for j := 0; j < l; j++ {
 				op.Tx = append(op.Tx, rapid.IntRange(0, n-1).Draw(t, "tx"))
@@ -687,6 +725,8 @@ type c15Fixture struct {
 	knows   map[[2]int]bool // (peer, payload root): the peer itself handed these bytes to the node
 	// supplied[i]: the payload was given to the node for transaction i itself (with it, or in a TransactionPayload for its ref)
 	supplied map[int]bool
+	// publicised[root]: a public transaction carrying these bytes was supplied with the real content, so it is public
+	publicised map[int]bool
 
 	lastState []*State
 	lastLQ    []*TransactionListQuery
@@ -747,7 +787,7 @@ func c15WellFormed(lines []string) bool {
 }
 
 func c15Setup(x *h.Ctx, c c15Case) *c15Fixture {
-	f := &c15Fixture{x: x, c: c, ctx: context.Background(), supplied: map[int]bool{}}
+	f := &c15Fixture{x: x, c: c, ctx: context.Background(), supplied: map[int]bool{}, publicised: map[int]bool{}}
 	sit, ok := c15KeySits[c.KeySit]
 	if !ok {
 		x.Fatalf("unknown key situation %q", c.KeySit)
@@ -841,10 +881,12 @@ func c15Setup(x *h.Ctx, c c15Case) *c15Fixture {
 
 	for i, spec := range c.Txs {
 		b := c15BuiltTx{spec: spec, payload: c15Payload(i, spec.Priv), root: i}
-		if spec.Share > 0 && spec.Priv && i > 0 {
+		if spec.Share > 0 && i > 0 {
 			if o := f.txs[(spec.Share-1)%i]; o.spec.Priv {
 				b.root, b.payload = o.root, o.payload
-				b.spec.Have = false
+				if spec.Priv {
+					b.spec.Have = false
+				}
 			}
 		}
 		var epal [][]byte
@@ -947,6 +989,9 @@ func c15Setup(x *h.Ctx, c c15Case) *c15Fixture {
 		x.NoErr(st.Add(f.ctx, b.tx, pl), fmt.Sprintf("state.Add tx %d", i))
 		if pl != nil {
 			f.supplied[i] = true
+			if !b.spec.Priv && b.root != i {
+				f.publicised[b.root] = true // somebody who knew the content published it in a public transaction
+			}
 		}
 	}
 
@@ -1157,14 +1202,29 @@ func (f *c15Fixture) checkSends(step int, op c15Op) [][]*Envelope {
 			}
 			for _, root := range roots {
 				f.x.Class("sent:private-payload-in-" + mt)
+				if f.publicised[root] {
+					// a public transaction with this content was supplied by somebody who knew it: no longer confidential
+					f.x.Class("sent:private-payload-that-was-published")
+					continue
+				}
+				alias := -1 // a public transaction in the DAG that names this payload hash without the content having been supplied for it
+				for i := range f.txs {
+					if !f.txs[i].spec.Priv && f.txs[i].root == root && i != root && f.inDag(i) {
+						alias = i
+					}
+				}
 				if f.knows[[2]int{j, root}] {
 					// the peer handed these very bytes to the node earlier: nothing is disclosed to it
 					f.x.Class("sent:private-payload-back-to-its-supplier")
 					continue
 				}
 				if mt != "TransactionPayload" {
-					f.x.Violate("leak:"+mt, "step %d (%s): payload of private tx %v occurs in a %s sent to peer %d %+v",
-						step, op.K, hits[root], mt, j, f.c.Peers[j])
+					sig := "leak:" + mt
+					if alias >= 0 {
+						sig += ":via-public-transaction-with-same-payload-hash"
+					}
+					f.x.Violate(sig, "step %d (%s): payload of private tx %v occurs in a %s sent to peer %d %+v (public transaction naming the same payload hash in the DAG: %d)",
+						step, op.K, hits[root], mt, j, f.c.Peers[j], alias)
 					continue
 				}
 				// The bytes may be carried by several transactions (same payload hash). What counts is for which of them the
@@ -1209,6 +1269,10 @@ func (f *c15Fixture) checkSends(step int, op c15Op) [][]*Envelope {
 							"step %d (%s): peer %d %+v asked for tx %d and was sent bytes that were never supplied for that transaction; it is not entitled by any transaction they were supplied for. Transactions with this payload hash: %s; key situation %s",
 							step, op.K, j, f.c.Peers[j], answered, strings.Join(all, "; "), f.c.KeySit)
 					}
+				} else if answered >= 0 && !f.txs[answered].spec.Priv && f.txs[answered].root == root {
+					f.x.Violate("leak:TransactionPayload:via-public-transaction-with-same-payload-hash",
+						"step %d (%s): peer %d %+v asked for public tx %d, which names the payload hash of private %s but was never supplied with that content, and was sent the private payload",
+						step, op.K, j, f.c.Peers[j], answered, strings.Join(all, "; "))
 				} else {
 					f.x.Violate("leak:TransactionPayload:unattributed", "step %d (%s): private payload of %s sent to peer %d %+v in a response for ref %x",
 						step, op.K, strings.Join(all, "; "), j, f.c.Peers[j], env.GetTransactionPayload().TransactionRef)
@@ -1266,6 +1330,11 @@ func (f *c15Fixture) apply(step int, op c15Op) {
 			switch {
 			case !b.spec.Priv && got != nil:
 				x.Class("pq:public-served")
+				if b.root != txi {
+					x.Class("pq:public-alias-served")
+				}
+			case !b.spec.Priv && b.root != txi:
+				x.Class("pq:public-alias-not-served")
 			case b.spec.Priv && got != nil:
 				x.Class("pq:private-served")
 				if b.root != txi || b.spec.Share > 0 {
@@ -1503,6 +1572,13 @@ func (f *c15Fixture) apply(step int, op c15Op) {
 			b := f.txs[i]
 			nt := &Transaction{Data: b.tx.Data()}
 			switch {
+			case !b.spec.Priv && op.Mode2 == "pub-junk":
+				g := sha256.Sum256([]byte(fmt.Sprintf("c15-junk-list-%d-%d", step, i)))
+				nt.Payload = g[:]
+			case !b.spec.Priv && op.Mode2 == "pub-other":
+				nt.Payload = c15Payload(2000+i, false)
+			case !b.spec.Priv && op.Mode2 == "pub-empty":
+				nt.Payload = []byte{}
 			case !b.spec.Priv && op.Mode2 != "pub-without":
 				nt.Payload = b.payload
 			case b.spec.Priv && op.Mode2 == "priv-with":
@@ -1527,6 +1603,16 @@ func (f *c15Fixture) apply(step int, op c15Op) {
 				x.Class("list-in:transaction-admitted")
 				if attached[i] {
 					f.supplied[i] = true
+					if !f.txs[i].spec.Priv && f.txs[i].root != i {
+						f.publicised[f.txs[i].root] = true
+					}
+				}
+				if !f.txs[i].spec.Priv && f.txs[i].root != i {
+					if attached[i] {
+						x.Class("list-in:public-alias-admitted-with-real-content")
+					} else {
+						x.Class("list-in:public-alias-admitted-without-real-content")
+					}
 				}
 				if f.txs[i].root != i && !attached[i] {
 					x.Class("list-in:shared-hash-transaction-admitted-without-payload")
@@ -1597,6 +1683,9 @@ func c15Run(x *h.Ctx, c c15Case) {
 	heldPrivate := []int{}
 	for i, b := range f.txs {
 		if !b.spec.Priv {
+			if b.root != i {
+				x.Class("tx:public-naming-payload-hash-of-private-tx")
+			}
 			continue
 		}
 		x.Class("pal:" + b.spec.Pal.Mode)
